@@ -479,8 +479,9 @@ Definition complete_arg_v (tbl : pvtable) (arg : bytes) (c : cmd) (pos_index : N
       COk (finish (optv ++ more))))
   end.
 
-(** [parse_opt_value]; [None] = [expect("built")] (line 673) *)
-Definition parse_opt_value (o : arg) (count : N) : option pstate :=
+(** [parse_opt_value] / [parse_positional] BEFORE the repair of finding C18-value-terminator (no notion of
+    [Arg::value_terminator]); used by the loops kept for the before/after witnesses *)
+Definition parse_opt_value_before_termfix (o : arg) (count : N) : option pstate :=
   match a_num o with
   | None => None
   | Some r => Some (if count <? vmax r then Opt o (count + 1) else ValueDone)
@@ -488,7 +489,7 @@ Definition parse_opt_value (o : arg) (count : N) : option pstate :=
 
 (** [parse_positional]; [None] = the [expect("built")] of [parse_opt_value] (line 673).
     (Before fix 8cf4a4e the [Opt] arm was [unreachable!]: finding D.) *)
-Definition parse_positional (c : cmd) (pos_index : N) (is_escaped : bool) (st : pstate) : option (pstate * N) :=
+Definition parse_positional_before_termfix (c : cmd) (pos_index : N) (is_escaped : bool) (st : pstate) : option (pstate * N) :=
   (* a positional that appends keeps accepting values (fix c6f4cbc) *)
   let num_args := match find_pos c pos_index with
                   | Some a => match a_get_action a with
@@ -508,7 +509,51 @@ Definition parse_positional (c : cmd) (pos_index : N) (is_escaped : bool) (st : 
         else if is_escaped then Some (Pos pos_index 1, pos_index + 1)
         else Some (ValueDone, pos_index + 1)
       else Some update_state_with_new_positional
-  | Opt o count => match parse_opt_value o count with Some st => Some (st, pos_index) | None => None end
+  | Opt o count => match parse_opt_value_before_termfix o count with Some st => Some (st, pos_index) | None => None end
+  end.
+
+(** [is_value_terminator] (repair of finding C18-value-terminator): the parser's [check_terminator] *)
+Definition is_value_terminator (o : arg) (w : bytes) : bool :=
+  match a_term o with Some t => beq t w | None => false end.
+
+(** [parse_opt_value]; [None] = [expect("built")] (line 673).  Like the real parser, the value terminator ends
+    the values of the option and is itself dropped. *)
+Definition parse_opt_value (o : arg) (count : N) (w : bytes) : option pstate :=
+  if is_value_terminator o w then Some ValueDone
+  else
+    match a_num o with
+    | None => None
+    | Some r => Some (if count <? vmax r then Opt o (count + 1) else ValueDone)
+    end.
+
+(** [parse_positional]; [None] = the [expect("built")] of [parse_opt_value] (line 673).
+    (Before fix 8cf4a4e the [Opt] arm was [unreachable!]: finding D.)  Like the real parser, the value terminator
+    of the positional at [pos_index] ends its values: the word is dropped, the next positional is up. *)
+Definition parse_positional (c : cmd) (pos_index : N) (is_escaped : bool) (st : pstate) (w : bytes) : option (pstate * N) :=
+  if negb (match st with Opt _ _ => true | _ => false end)
+     && match find_pos c pos_index with Some p => is_value_terminator p w | None => false end
+  then Some (if is_escaped then (Pos pos_index 1, pos_index + 1) else (ValueDone, pos_index + 1))
+  else
+  (* a positional that appends keeps accepting values (fix c6f4cbc) *)
+  let num_args := match find_pos c pos_index with
+                  | Some a => match a_get_action a with
+                              | AAppend => usize_max
+                              | _ => match a_num a with Some r => vmax r | None => 1 end
+                              end
+                  | None => 1 end in
+  let update_state_with_new_positional :=
+    if 1 <? num_args then (Pos pos_index 1, pos_index)
+    else if is_escaped then (Pos pos_index 1, pos_index + 1)
+    else (ValueDone, pos_index + 1) in
+  match st with
+  | ValueDone => Some update_state_with_new_positional
+  | Pos prev_pos_index num_arg =>
+      if prev_pos_index =? pos_index then
+        if num_arg + 1 <? num_args then Some (Pos pos_index (num_arg + 1), pos_index)
+        else if is_escaped then Some (Pos pos_index 1, pos_index + 1)
+        else Some (ValueDone, pos_index + 1)
+      else Some update_state_with_new_positional
+  | Opt o count => match parse_opt_value o count w with Some st => Some (st, pos_index) | None => None end
   end.
 
 Definition has_short (c : cmd) (ch : N) : bool := is_some (find_short_visible c ch).
@@ -545,7 +590,7 @@ Inductive step := SPanic (site : N) | SFuel
 Definition shadow_step (arg : bytes) (cur : cmd) (pos_index : N) (is_escaped : bool) (current_state : pstate)
            (valid_arg_found : bool) : step :=
   let positional :=
-    match parse_positional cur pos_index is_escaped current_state with
+    match parse_positional cur pos_index is_escaped current_state arg with
     | Some (st, pi) => SNext cur pi is_escaped st true
     | None => SPanic 673
     end in
@@ -563,7 +608,7 @@ Definition shadow_step (arg : bytes) (cur : cmd) (pos_index : N) (is_escaped : b
       else if is_escape arg then SNext cur pos_index true ValueDone valid_arg_found
       else if opt_allows_hyphen current_state arg then
         match current_state with
-        | Opt o count => match parse_opt_value o count with
+        | Opt o count => match parse_opt_value o count arg with
                          | Some st => SNext cur pos_index is_escaped st valid_arg_found
                          | None => SPanic 673 end
         | _ => SPanic 69
@@ -576,7 +621,9 @@ Definition shadow_step (arg : bytes) (cur : cmd) (pos_index : N) (is_escaped : b
               | Some o =>
                   match a_num o with
                   | None => SPanic 84
-                  | Some r => if r_takes_values r && is_none value
+                  | Some r => (* like the real parser, an option that requires `=` never takes the next word as its
+                                 value (repair of finding C18-require-equals) *)
+                              if r_takes_values r && is_none value && negb (a_req_eq o)
                               then SNext cur pos_index is_escaped (Opt o 1) true
                               else SNext cur pos_index is_escaped ValueDone true
                   end
@@ -591,7 +638,7 @@ Definition shadow_step (arg : bytes) (cur : cmd) (pos_index : N) (is_escaped : b
                 | SFPanic => SPanic 603
                 | SFFuel => SFuel
                 | SFOk _ (Some o) short' =>
-                    if is_none (next_value_os short') then SNext cur pos_index is_escaped (Opt o 1) true
+                    if is_none (next_value_os short') && negb (a_req_eq o) then SNext cur pos_index is_escaped (Opt o 1) true
                     else SNext cur pos_index is_escaped ValueDone true
                 | SFOk flags None _ =>
                     (* known flags stay flags even if the next positional allows hyphens (fix d4a15c6) *)
@@ -602,7 +649,7 @@ Definition shadow_step (arg : bytes) (cur : cmd) (pos_index : N) (is_escaped : b
                 end
             | None =>
                 match current_state with
-                | Opt o count => match parse_opt_value o count with
+                | Opt o count => match parse_opt_value o count arg with
                                  | Some st => SNext cur pos_index is_escaped st valid_arg_found
                                  | None => SPanic 673 end
                 | _ => positional
@@ -653,7 +700,7 @@ Definition complete_model (tbl : pvtable) (c : cmd) (args : list bytes) (arg_ind
     [args_conflict_before_after]); the last component of [SNext] is unused *)
 Definition shadow_step_before_fix (arg : bytes) (cur : cmd) (pos_index : N) (is_escaped : bool) (current_state : pstate) : step :=
   let positional :=
-    match parse_positional cur pos_index is_escaped current_state with
+    match parse_positional_before_termfix cur pos_index is_escaped current_state with
     | Some (st, pi) => SNext cur pi is_escaped st false
     | None => SPanic 673
     end in
@@ -667,7 +714,7 @@ Definition shadow_step_before_fix (arg : bytes) (cur : cmd) (pos_index : N) (is_
       else if is_escape arg then SNext cur pos_index true ValueDone false
       else if opt_allows_hyphen current_state arg then
         match current_state with
-        | Opt o count => match parse_opt_value o count with
+        | Opt o count => match parse_opt_value_before_termfix o count with
                          | Some st => SNext cur pos_index is_escaped st false
                          | None => SPanic 673 end
         | _ => SPanic 69
@@ -705,7 +752,7 @@ Definition shadow_step_before_fix (arg : bytes) (cur : cmd) (pos_index : N) (is_
                 end
             | None =>
                 match current_state with
-                | Opt o count => match parse_opt_value o count with
+                | Opt o count => match parse_opt_value_before_termfix o count with
                                  | Some st => SNext cur pos_index is_escaped st false
                                  | None => SPanic 673 end
                 | _ => positional
@@ -744,6 +791,214 @@ Definition complete_model_before_fix (tbl : pvtable) (c : cmd) (args : list byte
              | WFuel => CFuel
              | WEnd => CErr
              | WAt arg cur pi st _ _ => complete_arg tbl arg cur pi st
+             end
+  end.
+
+(** ** the loop BEFORE the repair of finding C18-value-terminator (the engine did not know [Arg::value_terminator];
+    kept for the witness [terminator_before_after]) *)
+Definition shadow_step_before_termfix (arg : bytes) (cur : cmd) (pos_index : N) (is_escaped : bool) (current_state : pstate)
+           (valid_arg_found : bool) : step :=
+  let positional :=
+    match parse_positional_before_termfix cur pos_index is_escaped current_state with
+    | Some (st, pi) => SNext cur pi is_escaped st true
+    | None => SPanic 673
+    end in
+  (* like the real parser, a value of a pending option or of a positional that is still being
+     filled is not a subcommand (fixes 689b619, c6f4cbc), and neither is a word that follows an argument of a
+     command whose arguments conflict with subcommands *)
+  let maybe_subcommand :=
+    (is_set s_sub_precedence cur
+     || negb (match current_state with Opt _ _ | Pos _ _ => true | ValueDone => false end))
+    && negb (is_set s_args_negate_subs cur && valid_arg_found) in
+  match (if maybe_subcommand && utf8_valid arg then find_subcommand cur arg else None) with
+  | Some next_cmd => SNext next_cmd 1 is_escaped ValueDone false
+  | None =>
+      if is_escaped then positional
+      else if is_escape arg then SNext cur pos_index true ValueDone valid_arg_found
+      else if opt_allows_hyphen current_state arg then
+        match current_state with
+        | Opt o count => match parse_opt_value_before_termfix o count with
+                         | Some st => SNext cur pos_index is_escaped st valid_arg_found
+                         | None => SPanic 673 end
+        | _ => SPanic 69
+        end
+      else
+        match to_long arg with
+        | Some (flag, flag_utf8, value) =>
+            if flag_utf8 then
+              match find_long_visible cur flag with
+              | Some o =>
+                  match a_num o with
+                  | None => SPanic 84
+                  | Some r => if r_takes_values r && is_none value
+                              then SNext cur pos_index is_escaped (Opt o 1) true
+                              else SNext cur pos_index is_escaped ValueDone true
+                  end
+              | None => if pos_allows_hyphen cur pos_index then positional
+                        else SNext cur pos_index is_escaped ValueDone valid_arg_found
+              end
+            else SNext cur pos_index is_escaped ValueDone valid_arg_found
+        | None =>
+            match to_short arg with
+            | Some short =>
+                match parse_shortflags cur short with
+                | SFPanic => SPanic 603
+                | SFFuel => SFuel
+                | SFOk _ (Some o) short' =>
+                    if is_none (next_value_os short') then SNext cur pos_index is_escaped (Opt o 1) true
+                    else SNext cur pos_index is_escaped ValueDone true
+                | SFOk flags None _ =>
+                    (* known flags stay flags even if the next positional allows hyphens (fix d4a15c6) *)
+                    if utf8_valid arg && forallb (has_short cur) (decode flags)
+                    then SNext cur pos_index is_escaped ValueDone true
+                    else if pos_allows_hyphen cur pos_index then positional
+                    else SNext cur pos_index is_escaped ValueDone valid_arg_found
+                end
+            | None =>
+                match current_state with
+                | Opt o count => match parse_opt_value_before_termfix o count with
+                                 | Some st => SNext cur pos_index is_escaped st valid_arg_found
+                                 | None => SPanic 673 end
+                | _ => positional
+                end
+            end
+        end
+  end.
+
+Fixpoint shadow_walk_before_termfix (items : list bytes) (cursor target : N) (cur : cmd) (pos_index : N)
+         (is_escaped : bool) (next_state : pstate) (valid_arg_found : bool) : walk :=
+  match items with
+  | [] => WEnd
+  | arg :: rest =>
+      let cursor := sat_add cursor 1 in
+      if cursor =? target then WAt arg cur pos_index next_state is_escaped valid_arg_found
+      else
+        match shadow_step_before_termfix arg cur pos_index is_escaped next_state valid_arg_found with
+        | SPanic s => WPanic s
+        | SFuel => WFuel
+        | SNext cur' pi esc st vaf => shadow_walk_before_termfix rest cursor target cur' pi esc st vaf
+        end
+  end.
+
+Definition start_walk_before_termfix (b : cmd) (args : list bytes) (arg_index : N) : walk :=
+  let len := N.of_nat (length args) in
+  let target := sat_add (N.min arg_index len) 1 in
+  let cursor := if is_set s_no_binary_name b then 0 else 1 in
+  shadow_walk_before_termfix (skipn (N.to_nat cursor) args) cursor target b 1 false ValueDone false.
+
+Definition complete_model_before_termfix (tbl : pvtable) (c : cmd) (args : list bytes) (arg_index : N) : cres :=
+  match build_full (build_fuel c) c with
+  | BInvalid => CInvalid
+  | BFuel => CFuel
+  | BOk b => match start_walk_before_termfix b args arg_index with
+             | WPanic s => CPanic s
+             | WFuel => CFuel
+             | WEnd => CErr
+             | WAt arg cur pi st _ vaf => complete_arg_v tbl arg cur pi st vaf
+             end
+  end.
+
+(** ** the loop BEFORE the repair of finding C18-require-equals (behind `--opt` / `-o` the engine always waited for a value, also
+    when the option requires `=`; kept for the witness [require_equals_before_after]) *)
+Definition shadow_step_before_reqfix (arg : bytes) (cur : cmd) (pos_index : N) (is_escaped : bool) (current_state : pstate)
+           (valid_arg_found : bool) : step :=
+  let positional :=
+    match parse_positional cur pos_index is_escaped current_state arg with
+    | Some (st, pi) => SNext cur pi is_escaped st true
+    | None => SPanic 673
+    end in
+  (* like the real parser, a value of a pending option or of a positional that is still being
+     filled is not a subcommand (fixes 689b619, c6f4cbc), and neither is a word that follows an argument of a
+     command whose arguments conflict with subcommands *)
+  let maybe_subcommand :=
+    (is_set s_sub_precedence cur
+     || negb (match current_state with Opt _ _ | Pos _ _ => true | ValueDone => false end))
+    && negb (is_set s_args_negate_subs cur && valid_arg_found) in
+  match (if maybe_subcommand && utf8_valid arg then find_subcommand cur arg else None) with
+  | Some next_cmd => SNext next_cmd 1 is_escaped ValueDone false
+  | None =>
+      if is_escaped then positional
+      else if is_escape arg then SNext cur pos_index true ValueDone valid_arg_found
+      else if opt_allows_hyphen current_state arg then
+        match current_state with
+        | Opt o count => match parse_opt_value o count arg with
+                         | Some st => SNext cur pos_index is_escaped st valid_arg_found
+                         | None => SPanic 673 end
+        | _ => SPanic 69
+        end
+      else
+        match to_long arg with
+        | Some (flag, flag_utf8, value) =>
+            if flag_utf8 then
+              match find_long_visible cur flag with
+              | Some o =>
+                  match a_num o with
+                  | None => SPanic 84
+                  | Some r => if r_takes_values r && is_none value
+                              then SNext cur pos_index is_escaped (Opt o 1) true
+                              else SNext cur pos_index is_escaped ValueDone true
+                  end
+              | None => if pos_allows_hyphen cur pos_index then positional
+                        else SNext cur pos_index is_escaped ValueDone valid_arg_found
+              end
+            else SNext cur pos_index is_escaped ValueDone valid_arg_found
+        | None =>
+            match to_short arg with
+            | Some short =>
+                match parse_shortflags cur short with
+                | SFPanic => SPanic 603
+                | SFFuel => SFuel
+                | SFOk _ (Some o) short' =>
+                    if is_none (next_value_os short') then SNext cur pos_index is_escaped (Opt o 1) true
+                    else SNext cur pos_index is_escaped ValueDone true
+                | SFOk flags None _ =>
+                    (* known flags stay flags even if the next positional allows hyphens (fix d4a15c6) *)
+                    if utf8_valid arg && forallb (has_short cur) (decode flags)
+                    then SNext cur pos_index is_escaped ValueDone true
+                    else if pos_allows_hyphen cur pos_index then positional
+                    else SNext cur pos_index is_escaped ValueDone valid_arg_found
+                end
+            | None =>
+                match current_state with
+                | Opt o count => match parse_opt_value o count arg with
+                                 | Some st => SNext cur pos_index is_escaped st valid_arg_found
+                                 | None => SPanic 673 end
+                | _ => positional
+                end
+            end
+        end
+  end.
+
+Fixpoint shadow_walk_before_reqfix (items : list bytes) (cursor target : N) (cur : cmd) (pos_index : N)
+         (is_escaped : bool) (next_state : pstate) (valid_arg_found : bool) : walk :=
+  match items with
+  | [] => WEnd
+  | arg :: rest =>
+      let cursor := sat_add cursor 1 in
+      if cursor =? target then WAt arg cur pos_index next_state is_escaped valid_arg_found
+      else
+        match shadow_step_before_reqfix arg cur pos_index is_escaped next_state valid_arg_found with
+        | SPanic s => WPanic s
+        | SFuel => WFuel
+        | SNext cur' pi esc st vaf => shadow_walk_before_reqfix rest cursor target cur' pi esc st vaf
+        end
+  end.
+
+Definition start_walk_before_reqfix (b : cmd) (args : list bytes) (arg_index : N) : walk :=
+  let len := N.of_nat (length args) in
+  let target := sat_add (N.min arg_index len) 1 in
+  let cursor := if is_set s_no_binary_name b then 0 else 1 in
+  shadow_walk_before_reqfix (skipn (N.to_nat cursor) args) cursor target b 1 false ValueDone false.
+
+Definition complete_model_before_reqfix (tbl : pvtable) (c : cmd) (args : list bytes) (arg_index : N) : cres :=
+  match build_full (build_fuel c) c with
+  | BInvalid => CInvalid
+  | BFuel => CFuel
+  | BOk b => match start_walk_before_reqfix b args arg_index with
+             | WPanic s => CPanic s
+             | WFuel => CFuel
+             | WEnd => CErr
+             | WAt arg cur pi st _ vaf => complete_arg_v tbl arg cur pi st vaf
              end
   end.
 
